@@ -150,8 +150,17 @@ pred twOpenOK(tw) := forallv(k, "", dom(tw.triggeredWindows, k) ==> tw.triggered
 pred twNoStranded(tw) := tw.config.TimeCharacteristic == "EventTime" && tw.config.AllowedLateness <= 0 && tw.initialized && tw.currentSlot != nil ==> forall(i, 0, len(tw.data), tw.data[i].Timestamp >= *tw.currentSlot.Start)
 pred rowsNotBefore(d, b) := forall(i, 0, len(d), d[i].Timestamp >= b)
 
-extern extractTimestamp
+// the reflective lookup of the timestamp column is outside the model; what is checked here is what happens to the value
+// found: a numeric epoch is placed only when a unit is configured, and then scaled by exactly that unit
+func extractTimestamp
+  props C02 C01 C08 C10
   option pure
+  option assumed_frame
+  observe epoch := ToInt64E
+  observe epochErr := ToInt64E#1
+  observe placed := ConvertIntToTime
+  before ConvertIntToTime a-numeric-epoch-is-scaled-by-the-configured-unit-which-must-be-set: timeUnit != 0 && $arg1 == timeUnit && $arg0 == $epoch && $epochErr == nil
+  before warnUnplaceableTimestamp only-an-epoch-without-a-unit-is-warned-about: timeUnit == 0
 
 func (*TumblingWindow).getWindowKey
   props C02 C01
@@ -736,7 +745,6 @@ func (*GlobalWindow).Add
   modifies *
   ensures true
 
-pure github.com/rulego/streamsql/aggregator.CreateBuiltinAggregator
 
 func (*GlobalWindow).buildOutputSpecs
   props C17 C04 C12
